@@ -703,16 +703,19 @@ def simulate_generator(chk: Check, ctx: FuncCtx, loop, base=None, fields=None, c
     return out
 
 
-def simulate_assembly(chk: Check, ctx: FuncCtx, loop, base=None, fields=None, call_models=None, own_handle=None, parent=None, max_rounds=64):
+def simulate_assembly(chk: Check, ctx: FuncCtx, loop, base=None, fields=None, call_models=None, own_handle=None, parent=None, max_rounds=64, inputs=None):
     """How a read loop assembles its result for one model input, by evaluating the loop round by round: the pieces handed to
     `<acc>.append(piece)` (placed one after the other) or stored with `<buf>[a:b] = piece` (placed at a), each classified as
     zeros / own-file read at the position of the seek that precedes it / parent read.
     -> ([(output offset, length, 'zeros' | 'file' | 'parent', source offset | None)], total length | None) or None (not decidable)"""
     R = chk.R
     carried = loop_carried(chk, ctx, loop)
-    rounds = simulate_loop(chk, ctx, loop, carried, [{}] * max_rounds, fields=fields, base=base, call_models=call_models)
-    if not rounds or rounds[-1][2][0] != "left":
-        return None
+    rounds = simulate_loop(chk, ctx, loop, carried, [{}] * max_rounds if inputs is None else inputs, fields=fields, base=base, call_models=call_models)
+    if inputs is None:
+        if not rounds or rounds[-1][2][0] != "left":
+            return None
+    elif len(rounds) != len(inputs) or any(r[2][0] not in ("back", "continue") for r in rounds):
+        return None  # a loop over given elements runs once per element
     segs = []
     pos = 0
     last_seek = {}
@@ -770,7 +773,8 @@ def simulate_assembly(chk: Check, ctx: FuncCtx, loop, base=None, fields=None, ca
                     src = last_seek.get(eff[1])
                     if ln is None or src is None:
                         return None
-                    segs.append((at, ln, "file", src))
+                    # (several handles in play - a walk over storages: the piece names the handle it was read from)
+                    segs.append((at, ln, "file" if own_handle is not None else f"file:{S._key(S.ev(eff[1], r.val))}", src))
                     last_seek[eff[1]] = src + ln
                 elif eff[0] == "PARENT":
                     src = None
